@@ -105,19 +105,22 @@ NOT_APPLICABLE = {}
 ADDED = {
  "C01": " Added: forge_r (the verifier's computed point R is fixed and an arbitrary numeric relation r = f(X(R)) is presented: x+(p-n), x-(p-n), p-x, ...), crafted u1*G+u2*Q = infinity triples, s values limb-wise adjacent to n/2, quick tier on san + mx_i64 + mx_noasm.",
  "C02": " Added: the quick tier also runs the no-asm 64-bit build (mx_noasm).",
- "C05": " Added: operands derived from a chosen RESULT in the final-correction windows of each reduction (steer / wl_reduce), limb-pattern and limb-wise-comparison operands, one-bit / one-limb differences for the equality routines, magnitude 31 for fe_equal on every build (finding F4, fixed), quick tier on 5 builds incl. the non-VERIFY 32-bit-limb one.",
- "C07": " Added: algebraically crafted inputs that make an intermediate point of a verifier the point at infinity (adaptor R1/R2/derived point, ECDSA, Schnorr, cancelling combine/tweaks, Borromean chain points in surjection / whitelist / range proofs), production (non-VERIFY) build in the quick tier.",
- "C09": " Added: directed zero-blinding cases around the min_bits clamp (known finding F5 is reported as KNOWN-FINDING with its own key).",
- "C10": " Added: proofs whose digit commitment has x0 < 2^32+977 under a prover-chosen generator, in canonical and x0+p encodings (decides the 'digit commitment >= p' clause), quick tier also on the 32-bit-limb build.",
+ "C05": " Added: operands derived from a chosen RESULT in the final-correction windows of each reduction (steer / wl_reduce), limb-pattern and limb-wise-comparison operands, one-bit / one-limb differences for the equality routines, magnitude 31 for fe_equal on every build (finding F4, fixed), quick tier on 5 builds incl. the non-VERIFY 32-bit-limb one; the thorough tier sweeps every precomputed ECMULT_WINDOW_SIZE 2..15 over the table-driven routines, every scratch size on a 4-byte grid.",
+ "C07": " Added: algebraically crafted inputs that make an intermediate point of a verifier the point at infinity (adaptor R1/R2/derived point, ECDSA, Schnorr, cancelling combine/tweaks, Borromean chain points in surjection / whitelist / range proofs), production (non-VERIFY) build in the quick tier; a boundary subset of the recorded commands is replayed on a sanitizer-free VERIFY build under valgrind memcheck (reads of uninitialised memory, which ASan cannot see); dead / half-wiped opaque objects fed to every consumer.",
+ "C09": " Added: directed zero-blinding cases around the min_bits clamp (known finding F5 is reported as KNOWN-FINDING with its own key); messages crafted from the key stream to zero a forged ring scalar; foreign nonces with every subset of optional outputs.",
+ "C10": " Added: proofs whose digit commitment has x0 < 2^32+977 under a prover-chosen generator, in canonical and x0+p encodings (decides the 'digit commitment >= p' clause), quick tier also on the 32-bit-limb build; cancelling digit commitments, explicit zero minimum and maximum-length proofs.",
  "C12": " Added: key lists containing a key and its negation, sign-flipped partial signatures / nonces / keys and effective-nonce-at-infinity probes for partial_sig_verify, sessions continuing with the cache left by a refused tweak.",
  "C14": " Added: crafted R1 / R2 / derived-point-at-infinity strings, r differing from R.x in one bit at every position, quick tier also on the 32-bit-limb build.",
- "C16": " Added: duplicate and negation-twin key lists, negated-key mutations, crafted chain-point-at-infinity inputs.",
- "C17": " Added: the empty aggregate with every boundary scalar and wrong length.",
+ "C16": " Added: duplicate and negation-twin key lists, negated-key mutations, crafted chain-point-at-infinity inputs, count and signature extended together.",
+ "C17": " Added: the empty aggregate with every boundary scalar and wrong length; schedules with refused steps and with empty parts (NULL and non-NULL empty arrays); every aggregate length.",
+ "C11": " Added: count fields around their limit with consistent lengths, forgeries through degenerate ring members, unblinded tags (blinding key 0), a HAVE_BUILTIN_POPCOUNT build.",
+ "C13": " Added: every present/absent combination of the optional nonce_gen arguments, half-wiped keypairs, caller buffers at odd addresses.",
+ "C04": " Added: key families differing in one byte of x at each position, every comb layout (86 / 22 / 2 KiB) across the three quick builds.",
  "C18": " Added: arbitrary non-zero ints for the 'party' flag; production build in the quick tier.",
- "C20": " Added: helgrind runs of the production build (inline asm included), production build in the quick tier, a shim death in the static-context workload is a violation.",
+ "C20": " Added: helgrind runs of the production build (inline asm included), production build in the quick tier, a shim death in the static-context workload is a violation; refused calls and absent optional arguments in the thread probes; the probe suite replayed on a VERIFY build under memcheck.",
 }
 GLOBAL_ADDED = (" Every check also repeats a sample of its calls on a byte copy of secp256k1_context_static (operations the headers do not restrict) and on a "
-                "second randomized context with a replaced SHA-256 compression function, demanding identical replies; quick tiers run secondary builds "
+                "second context (a malloc or preallocated CLONE of a randomized context with a replaced SHA-256 compression function), and repeats byte-array-only calls with every argument / output block placed at an odd address, demanding identical replies; quick tiers run secondary builds "
                 "(production / 32-bit limbs / no asm, three comb-table layouts) on a third of each workload.")
 NOTE_FIX = {
  "C10": "Trusted: ref/rangeproof.py, ref/borromean.py (incl. the small-x prover with a chosen generator).",
